@@ -81,6 +81,16 @@ def run(ctx: core.Ctx):
             ctx.violation(f"{op}.compute/result-aliased", {"op": op}, "the first result is unchanged by a later call", "modified", note="an earlier result array was overwritten by a later call of the same shape")
         elif again.shape != V.shape or not np.array_equal(again, V[::-1], equal_nan=True):
             ctx.violation(f"{op}.compute/formula/second-array-call", {"op": op}, "table (reversed)", "differs", note="a second array call of the same shape on the same object differs from the elementwise values")
+        # the caller's own arrays, updated in place between two calls
+        bufA, bufB = A.copy(), B.copy()
+        objs[op].compute(bufA, bufB)
+        bufA[...] = A[::-1]
+        bufB[...] = B[::-1]
+        third = np.asarray(objs[op].compute(bufA, bufB), dtype=float)
+        ctx.count(1)
+        if third.shape != V.shape or not np.array_equal(third, V[::-1], equal_nan=True):
+            ctx.violation(f"{op}.compute/formula/same-arrays-updated-in-place", {"op": op}, "table (reversed)", "differs",
+                          note="the same array objects, updated in place between two calls, give the result of their earlier contents")
         # nested array calls, as a three-operand conjunction / disjunction on batched inputs evaluates them: op(op(A, B), C)
         Cc = A[::-1].copy()
         nested = np.asarray(objs[op].compute(objs[op].compute(A, B), Cc), dtype=float)
